@@ -17,8 +17,10 @@ Inductive eentry := EE (name : str) (toks : list tok).
 
 Inductive case :=
 | CDecls (block : list raw) (oracle : list centry) (out : list odecl)
-| CComputed (parent_block block : list raw) (oracle : list centry) (tbl : list pentry)
+| CComputed (is_root : bool) (parent_block block : list raw) (oracle : list centry) (tbl : list pentry)
             (status : N) (out : list oent)
+    (* is_root: the probe element is the root element (`html { block }`: no parent style,
+       parent_block is empty); otherwise `parent { parent_block } probe { block }` *)
 | CResolve (e : list eentry) (t : tok) (status : N) (out : rv)
 | CMeta (a b : N).   (* 60-bit digests of the two canonical observables of a metamorphic pair *)
 
@@ -77,7 +79,7 @@ Definition computed_of (name : str) (v : value) : option value :=
 Definition tbl_find (tbl : list pentry) (n : str) : option pentry :=
   find (fun e => let 'PE n' _ _ _ := e in str_eqb n' n) tbl.
 
-Definition model_computed (parent_block block : list raw) (oracle : list centry) (tbl : list pentry)
+Definition model_computed (is_root : bool) (parent_block block : list raw) (oracle : list centry) (tbl : list pentry)
   : res (list (option oent)) :=
   let pc := pc_of oracle in
   let inh n := match tbl_find tbl n with Some (PE _ i _ _) => i | None => false end in
@@ -90,8 +92,8 @@ Definition model_computed (parent_block block : list raw) (oracle : list centry)
      match l with
      | [] => Ok []
      | PE n _ _ _ :: r =>
-         let* v := cascade_value (known_modelled pc) (validate_modelled pc) pc (fun _ => None)
-                                 inh ini par fuel e n (winner ds n) in
+         let* v := cascade_value_at (known_modelled pc) (validate_modelled pc) pc (fun _ => None)
+                                    inh ini (if is_root then None else Some par) fuel e n (winner ds n) in
          let* rest := go r in
          Ok (option_map (OE n) (computed_of n v) :: rest)
      end) tbl.
@@ -112,7 +114,7 @@ Inductive mout :=
 Definition model_out (c : case) : mout :=
   match c with
   | CDecls block oracle _ => MDecls (preprocess_modelled (pc_of oracle) block)
-  | CComputed pb b o tbl _ _ => MComputed (model_computed pb b o tbl)
+  | CComputed ir pb b o tbl _ _ => MComputed (model_computed ir pb b o tbl)
   | CResolve e t _ _ => MResolve (resolve_var fuel (env_of e) [] t)
   | CMeta a _ => MMeta a
   end.
@@ -134,9 +136,9 @@ Definition check (c : case) : N :=
   match c with
   | CDecls block oracle out =>
       if list_eqb odecl_eqb (preprocess_modelled (pc_of oracle) block) out then 0 else 1
-  | CComputed pb b o tbl status out =>
+  | CComputed ir pb b o tbl status out =>
       if negb (N.eqb status 0) then 3
-      else match model_computed pb b o tbl with
+      else match model_computed ir pb b o tbl with
            | Ok m => if olist_eqb m out then 0 else 4
            | _ => 7
            end
